@@ -95,6 +95,10 @@ def fold(v, consts=None, subst=None):
             return None
         if name == "pow" and v[1].split("::")[0] in MASK and len(args) == 2:
             return args[0] ** args[1]
+        if name == "saturating_add" and len(args) == 2 and v[1].split("::")[0] in MASK:
+            return min(args[0] + args[1], (1 << MASK[v[1].split("::")[0]]) - 1)
+        if name == "saturating_sub" and len(args) == 2 and v[1].split("::")[0] in MASK:
+            return max(args[0] - args[1], 0)
         if name == "min" and len(args) == 2:
             return min(args)
         if name == "max" and len(args) == 2:
@@ -163,6 +167,11 @@ def interval(tests, is_var, consts=None):
             lo = max(lo, c)
         elif rel == "==":
             lo, hi = max(lo, c), min(hi, c)
+        elif rel == "!=":
+            if c == lo:
+                lo = c + 1
+            if c == hi:
+                hi = c - 1
         else:
             unrec.append((v, label))
     return lo, hi, unrec
